@@ -1,0 +1,175 @@
+//go:build verif
+
+package webbridge
+
+import (
+	"bufio"
+	"bytes"
+	"io"
+	"net"
+	"net/http"
+	"time"
+
+	"github.com/lxzan/gws"
+	"google.golang.org/grpc/codes"
+	"google.golang.org/grpc/metadata"
+	"google.golang.org/grpc/status"
+	"google.golang.org/protobuf/types/known/emptypb"
+)
+
+// Exports for the C17 verification slice (tag "verif" only): direct calls of the small
+// client-facing cores with arbitrary bytes.
+
+func VerifRequestTranscodingError(err error) error  { return requestTranscodingError(err) }
+func VerifResponseTranscodingError(err error) error { return responseTranscodingError(err) }
+
+var (
+	VerifErrExpectedText   = errExpectedText
+	VerifErrExpectedBinary = errExpectedBinary
+)
+
+// VerifGRPCWebRecvResult is what one gRPCWebStream.recv call did with a request body.
+type VerifGRPCWebRecvResult struct {
+	Consumed int        // bytes of the body consumed
+	EOF      bool       // io.EOF returned
+	Code     codes.Code // status code of a non-EOF error (OK if none)
+	NonNil   bool       // error non-nil
+	Unknown  []byte     // the payload as seen by the message (unknown fields of Empty)
+}
+
+// VerifGRPCWebRecv runs the real gRPCWebStream.recv once on the given body.
+func VerifGRPCWebRecv(body []byte) VerifGRPCWebRecvResult {
+	rd := bytes.NewReader(body)
+	s := &gRPCWebStream{r: &http.Request{Body: io.NopCloser(rd)}, trailer: metadata.MD{}}
+	msg := &emptypb.Empty{}
+	err := s.recv(msg)
+	res := VerifGRPCWebRecvResult{Consumed: len(body) - rd.Len(), NonNil: err != nil}
+	if err == io.EOF {
+		res.EOF = true
+	} else if err != nil {
+		res.Code = status.Code(err)
+	}
+	res.Unknown = append([]byte(nil), msg.ProtoReflect().GetUnknown()...)
+	return res
+}
+
+// VerifGRPCWSOnMessageResult is the observable effect of one gwsGRPCWebHandler.OnMessage call.
+type VerifGRPCWSOnMessageResult struct {
+	Closed       bool // stream.closed afterwards
+	ReceivedMD   bool // stream.receivedMD afterwards
+	GotMD        bool // a metadata value was delivered on metadataCh
+	Delivered    bool // an event was delivered on events
+	Data         []byte
+	EventErrCode codes.Code // code of the delivered event's error (OK if none)
+	EventsClosed bool       // events channel closed by the call
+	Wrote        int        // websocket messages written by the call (trailer on bad metadata)
+}
+
+// VerifGRPCWSOnMessage calls the real gwsGRPCWebHandler.OnMessage with a real *gws.Conn (upgraded over a
+// net.Pipe) whose session holds a gRPCWebSocketStream in the given state.
+func VerifGRPCWSOnMessage(receivedMD, closed bool, data []byte) VerifGRPCWSOnMessageResult {
+	handler := new(gwsGRPCWebHandler)
+	up := gws.NewUpgrader(handler, &gws.ServerOption{SubProtocols: []string{"grpc-websockets"}})
+	srv, cli := net.Pipe()
+	defer srv.Close()
+	defer cli.Close()
+
+	// client end: swallow the handshake response and count the frames written afterwards
+	wrote := make(chan int, 1)
+	go func() {
+		br := bufio.NewReader(cli)
+		resp, err := http.ReadResponse(br, nil)
+		if err != nil || resp.StatusCode != 101 {
+			wrote <- -1
+			return
+		}
+		n := 0
+		for {
+			var h [2]byte
+			if _, err := io.ReadFull(br, h[:]); err != nil {
+				break
+			}
+			l := int(h[1] & 0x7f)
+			if l == 126 {
+				var e [2]byte
+				if _, err := io.ReadFull(br, e[:]); err != nil {
+					break
+				}
+				l = int(e[0])<<8 | int(e[1])
+			}
+			if _, err := io.CopyN(io.Discard, br, int64(l)); err != nil {
+				break
+			}
+			if h[0]&0x0f == 0x2 || h[0]&0x0f == 0x1 {
+				n++
+			}
+		}
+		wrote <- n
+	}()
+
+	req, _ := http.NewRequest(http.MethodGet, "/x", nil)
+	req.Header.Set("Connection", "Upgrade")
+	req.Header.Set("Upgrade", "websocket")
+	req.Header.Set("Sec-WebSocket-Version", "13")
+	req.Header.Set("Sec-WebSocket-Key", "AAAAAAAAAAAAAAAAAAAAAA==")
+	req.Header.Set("Sec-WebSocket-Protocol", "grpc-websockets")
+	socket, err := up.UpgradeFromConn(srv, bufio.NewReader(srv), req)
+	if err != nil {
+		panic("verif: upgrade over pipe failed: " + err.Error())
+	}
+
+	stream := &gRPCWebSocketStream{
+		socket:     socket,
+		receivedMD: receivedMD,
+		closed:     closed,
+		metadataCh: make(chan metadata.MD),
+		events:     make(chan gwsReadEvent),
+		done:       make(chan struct{}),
+		trailer:    metadata.MD{},
+	}
+	socket.Session().Store(gwsStreamKey, stream)
+
+	var res VerifGRPCWSOnMessageResult
+	recvDone := make(chan struct{})
+	stop := make(chan struct{})
+	go func() {
+		defer close(recvDone)
+		for {
+			select {
+			case <-stream.metadataCh:
+				res.GotMD = true
+			case ev, ok := <-stream.events:
+				if !ok {
+					res.EventsClosed = true
+					return
+				}
+				res.Delivered = true
+				res.Data = append([]byte(nil), ev.data...)
+				if ev.err != nil {
+					res.EventErrCode = status.Code(ev.err)
+				}
+			case <-stop:
+				return
+			}
+		}
+	}()
+
+	handler.OnMessage(socket, &gws.Message{Opcode: gws.OpcodeBinary, Data: bytes.NewBuffer(append([]byte(nil), data...))})
+
+	// let the receiver drain (OnMessage's sends are synchronous, so everything has been delivered)
+	time.Sleep(0)
+	close(stop)
+	<-recvDone
+	if !res.EventsClosed {
+		select {
+		case _, ok := <-stream.events:
+			res.EventsClosed = !ok
+		default:
+		}
+	}
+	res.Closed = stream.closed
+	res.ReceivedMD = stream.receivedMD
+	_ = srv.Close()
+	res.Wrote = <-wrote
+	return res
+}
